@@ -167,7 +167,7 @@ impl Property for C17 {
         let m = RxModel::build(scn, tr, d);
         let sl = scn.sched.max_latency + 2;
         let hw = host_windows(scn, tr, d);
-        let clean = scn.net.drop_pm == 0 && scn.net.dup_pm == 0 && scn.net.late_pm == 0;
+        let clean = scn.net.drop_pm == 0 && scn.net.dup_pm == 0 && scn.net.late_pm == 0 && !scn.ops.iter().any(|o| matches!(o.op, Op::Stall { .. }));
         let strict_run = clean && scn.sched.max_latency == 0;
         if scn.duts[0].ifs.len() > 1 {
             j.probe("two-interfaces");
